@@ -55,7 +55,7 @@ def _flat(x):
     """Field / MultiField / AnyArray / ndarray / scalar / list -> flat list of scalars"""
     if x is None:
         return []
-    if isinstance(x, (SR, SC, SB, int, float, complex, np.number, bool, np.bool_, Fraction)):
+    if isinstance(x, (SR, SC, SB, sc.SI, int, float, complex, np.number, bool, np.bool_, Fraction)):
         return [x]
     if isinstance(x, dict):
         out = []
@@ -86,6 +86,10 @@ def _flat(x):
 
 def _eq_terms(u, v):
     """scalars u, v -> list of division-free z3 equalities equivalent to u == v"""
+    if isinstance(u, sc.SI) or isinstance(v, sc.SI):
+        eu, ev = sc.SI._o(u), sc.SI._o(v)
+        if eu is not None and ev is not None:
+            return [eu == ev]
     u, v = sc._lift(u), sc._lift(v)
     if u is None or v is None:
         raise sc.HarnessError("non-numeric value in obligation")
@@ -107,6 +111,8 @@ def poly_identity(eq):
         d = z3.simplify(a - b, som=True)
     except z3.Z3Exception:
         return False
+    if z3.is_int_value(d):
+        return d.as_long() == 0
     return z3.is_rational_value(d) and d.numerator_as_long() == 0
 
 
@@ -188,6 +194,9 @@ class SymB:
 
     def complexes(self, name, shape=()):
         return sc.complexes(name, tuple(shape) if shape != () else ())
+
+    def ints(self, name, shape=()):
+        return sc.ints(name, tuple(shape) if shape != () else ())
 
     def values(self, name, shape=(), cplx=False):
         return self.complexes(name, shape) if cplx else self.reals(name, shape)
@@ -352,6 +361,15 @@ class ConcB:
         a = np.empty(shape, dtype=np.float64)
         for idx in np.ndindex(*shape):
             a[idx] = self._get(name + "_" + "_".join(map(str, idx)))
+        return a
+
+    def ints(self, name, shape=()):
+        if shape == ():
+            return np.int64(int(round(self._get(name)))) if name in self.model else np.int64(0)
+        a = np.zeros(shape, dtype=np.int64)
+        for idx in np.ndindex(*shape):
+            nm = name + "_" + "_".join(map(str, idx))
+            a[idx] = int(round(self._get(nm))) if nm in self.model else 0
         return a
 
     def complexes(self, name, shape=()):
